@@ -47,6 +47,9 @@ pub enum SOp {
 #[derive(Clone, Copy, Debug, PartialEq, Eq, Hash, Serialize, Deserialize)]
 pub enum LoopKind {
     Iter(IterKind),
+    /// the same iterators driven through std adapters (`map` + `take_while` + `collect`, which asks for
+    /// `size_hint` while the loop is live); IterKind::IntoIter here means `(&node).into_iter()` + adapters
+    IterAdapt(IterKind),
     /// for_each closure of a search / ordering
     ForEach,
     /// filter closure (accepts edges with even value, rejects odd ones)
@@ -226,15 +229,19 @@ pub fn run_case<F: Flavour>(c: &LCase, st: &mut Stats, counting: bool) -> bool {
     let budget = 4 * (c.g.edges.len() + connects) + 16;
     let transposed = match (&c.kind, &c.cell) {
         // iter_in yields edges in stored orientation (source, this node, value); only transpose() reverses
-        (LoopKind::Iter(_), _) => false,
+        (LoopKind::Iter(_) | LoopKind::IterAdapt(_), _) => false,
         (_, Some(cell)) => cell.transposed(),
         _ => false,
     };
-    let ls = RefCell::new(LoopState::<F> { nodes: &nodes, container: RefCell::new(cont), yields: 0, budget, script: &c.script, root: c.root, transposed, iter_kind: if let LoopKind::Iter(k) = c.kind { Some(k) } else { None }, problem: None, mutated_iterated_list: false });
+    let ls = RefCell::new(LoopState::<F> { nodes: &nodes, container: RefCell::new(cont), yields: 0, budget, script: &c.script, root: c.root, transposed, iter_kind: if let LoopKind::Iter(k) | LoopKind::IterAdapt(k) = c.kind { Some(k) } else { None }, problem: None, mutated_iterated_list: false });
     let r = catch_unwind(AssertUnwindSafe(|| {
         let rootn = &nodes[c.root as usize];
         match c.kind {
             LoopKind::Iter(k) => F::iterate(rootn, k, &mut |e| {
+                ls.borrow_mut().on_yield(e);
+                true
+            }),
+            LoopKind::IterAdapt(k) => F::iterate_adapters(rootn, k, &mut |e| {
                 ls.borrow_mut().on_yield(e);
                 true
             }),
@@ -303,6 +310,7 @@ pub fn run_case<F: Flavour>(c: &LCase, st: &mut Stats, counting: bool) -> bool {
         st.eval();
         let label = match (&c.kind, &c.cell) {
             (LoopKind::Iter(k), _) => format!("loop.iter.{:?}", k),
+            (LoopKind::IterAdapt(k), _) => format!("loop.iter-through-adapters.{:?}", k),
             (k, Some(cell)) => format!("loop.{}", cell.label(&if *k == LoopKind::ForEach { crate::search::MethSpec::ForEach } else { crate::search::MethSpec::Filter(Default::default()) })),
             _ => "loop.?".into(),
         };
@@ -319,6 +327,7 @@ pub fn run_case<F: Flavour>(c: &LCase, st: &mut Stats, counting: bool) -> bool {
     for f in fails {
         let loopname = match (&c.kind, &c.cell) {
             (LoopKind::Iter(k), _) => format!("iter.{:?}", k),
+            (LoopKind::IterAdapt(k), _) => format!("iter-through-adapters.{:?}", k),
             (LoopKind::ForEach, Some(cell)) => cell.label(&crate::search::MethSpec::ForEach),
             (_, Some(cell)) => cell.label(&crate::search::MethSpec::Filter(Default::default())),
             _ => "?".into(),
@@ -338,8 +347,8 @@ pub fn run_case<F: Flavour>(c: &LCase, st: &mut Stats, counting: bool) -> bool {
 
 pub fn applicable<F: Flavour>(c: &LCase) -> bool {
     match (&c.kind, &c.cell) {
-        (LoopKind::Iter(IterKind::In), _) => F::DIRECTED,
-        (LoopKind::Iter(_), _) => true,
+        (LoopKind::Iter(IterKind::In) | LoopKind::IterAdapt(IterKind::In), _) => F::DIRECTED,
+        (LoopKind::Iter(_) | LoopKind::IterAdapt(_), _) => true,
         (_, Some(cell)) => F::DIRECTED || !cell.transposed(),
         _ => false,
     }
@@ -363,7 +372,7 @@ pub fn run_all(c: &LCase, st: &mut Stats, counting: bool, only: Option<&str>) ->
 
 /// every loop kind (cell = None for plain iterators)
 pub fn loop_kinds() -> Vec<(LoopKind, Option<Cell>)> {
-    let mut v: Vec<(LoopKind, Option<Cell>)> = vec![(LoopKind::Iter(IterKind::Out), None), (LoopKind::Iter(IterKind::In), None), (LoopKind::Iter(IterKind::IntoIter), None)];
+    let mut v: Vec<(LoopKind, Option<Cell>)> = vec![(LoopKind::Iter(IterKind::Out), None), (LoopKind::Iter(IterKind::In), None), (LoopKind::Iter(IterKind::IntoIter), None), (LoopKind::IterAdapt(IterKind::Out), None), (LoopKind::IterAdapt(IterKind::In), None), (LoopKind::IterAdapt(IterKind::IntoIter), None)];
     for tr in [false, true] {
         for algo in crate::search::ALGOS {
             for (term, target) in [(Term::Search, None), (Term::Path, None), (Term::Path, Some(1 as Key)), (Term::Search, Some(2 as Key)), (Term::Cycle, None)] {
